@@ -169,10 +169,17 @@ def typeOfDef (k : Kind) (d : Def) (errs : List Err) : TypeEntry × List Err :=
   let (b, errs') := extendBody (dupIface k d.name) (dupMember k d.name) none Body.empty d errs
   ({ name := d.name, kind := k, builtin := false, pos := some d.pos, body := b }, errs')
 
-/-- the `for def in &extensions { if let XTypeExtension(ext) = def { ty.extend_ast(errors, ext) } }` loop
-    of `from_ast`: queued extensions of another kind are skipped WITHOUT a diagnostic (as in the code) -/
+def kindOfExt (e : Def) : Kind :=
+  match e.tag with
+  | .typeExt k => k
+  | _ => .scalar      -- `unreachable!()` in the code; the queue only ever holds type extensions
+
+/-- the `for def in &extensions { if let XTypeExtension(ext) = def { ty.extend_ast(errors, ext) } else
+    { report_queued_kind_mismatch(…) } }` loop of `from_ast` (after fix 9875890: a queued extension of
+    another kind is reported exactly like one that follows the definition) -/
 def adoptStep (k : Kind) (acc : TypeEntry × List Err) (e : Def) : TypeEntry × List Err :=
-  if e.tag = .typeExt k then extendType acc.1 e acc.2 else acc
+  if e.tag = .typeExt k then extendType acc.1 e acc.2
+  else (acc.1, acc.2 ++ [⟨e.namePos, .typeExtensionKindMismatch e.name (kindOfExt e) k⟩])
 
 /-- `XType::from_ast(errors, definition, extensions)` -/
 def typeFromAst (k : Kind) (d : Def) (exts : List Def) (errs : List Err) : TypeEntry × List Err :=
@@ -268,11 +275,6 @@ def addDocument (s : Builder) (ds : List Def) : Builder := ds.foldl step s
 def addSources (s : Builder) (srcs : List (List Def)) : Builder := srcs.foldl addDocument s
 
 /-! ### `build_inner` -/
-
-def kindOfExt (e : Def) : Kind :=
-  match e.tag with
-  | .typeExt k => k
-  | _ => .scalar      -- `unreachable!()` in the code; the queue only ever holds type extensions
 
 /-- keys of the orphan `IndexMap`: names in first-occurrence order -/
 def firstNames : List Def → List Name
